@@ -416,11 +416,23 @@ def _convert_importable(value: Any,
                         conversion_fn: PyValToCstFunc) -> cst.CSTNode:
   """Converts an importable value to the CST for `<module_name>.<qualname>`."""
   module = inspect.getmodule(value)
+  qualname = value.__qualname__
+  if inspect.ismethod(value):
+    # `__qualname__` of a bound method names the class that defines the function;
+    # the value itself is reached through what it is bound to (e.g. a classmethod
+    # inherited by a subclass).
+    owner = value.__self__
+    if not inspect.isclass(owner):
+      raise ValueError(
+          f'Cannot convert {value!r} to CST: it is bound to an instance.'
+      )
+    module = inspect.getmodule(owner)
+    qualname = f'{owner.__qualname__}.{value.__name__}'
   if module.__name__ == '__main__' or module is builtins:
-    return dotted_name_to_cst(value.__qualname__)
+    return dotted_name_to_cst(qualname)
   else:
-    result = conversion_fn(inspect.getmodule(value))
-    for piece in value.__qualname__.split('.'):
+    result = conversion_fn(module)
+    for piece in qualname.split('.'):
       result = cst.Attribute(value=result, attr=cst.Name(piece))
     return result
 
